@@ -120,8 +120,14 @@ def check_jt(jt, fs_model, case, drv, what):
 
 # ----------------------------------------------------------------------------- MN <-> FG, -> JT
 def gen_mn(rng, tier):
-    case = mnet.gen_mn_case(rng, connected=rng.random() < .8, special=rng.choice([None, None, None, "one"]))
-    case["target"] = rng.choice(["fg", "fg", "jt", "jt", "fg_jt", "fg_mn"])
+    r_ = rng.random()
+    if r_ < .2:
+        case = mnet.gen_cliquey_case(rng)
+    elif r_ < .3:
+        case = mnet.gen_cycle_case(rng)
+    else:
+        case = mnet.gen_mn_case(rng, connected=rng.random() < .8, special=rng.choice([None, None, None, "one"]))
+    case["target"] = rng.choice(["fg", "fg", "jt", "jt", "fg_jt", "fg_mn"]) if r_ >= .3 else rng.choice(["jt", "jt", "fg_jt"])
     return case
 
 
